@@ -17,14 +17,14 @@ RULE = (
     "(10-byte slot||key) with low byte 00 / high byte 00 / both 00 (last two free key bytes solved with the bit-serial reference CRC). Oracle = inverse: "
     "same session key, per block the same kind and fields when a matching decryptor was supplied, else a pass-through block with the same tag and the "
     "bytes that are in the file; component content as C01 (encrypted ones on blob[:declared]). keygrid enumerates every key class x every block kind. "
-    "History: the file is written a second time with the same encryptor objects, and a third time after IN-PLACE edits of its block / encryptor attributes (update version, customer key, selector of a default-recipient ECC block): the text carries the blocks as they are at that write. "
+    "Before the valid read the same text is read with decryptors of the right kind and selector but wrong secrets (outcome not judged): the valid read afterwards is unaffected. History: the file is written a second time with the same encryptor objects, and a third time after IN-PLACE edits of its block / encryptor attributes (update version, customer key, selector of a default-recipient ECC block): the text carries the blocks as they are at that write. "
     "Non-trivial = key/CRC in a zero-byte class, or >= 2 blocks, or a strict decryptor subset; distinct by case hash."
 )
 ASSUMPTIONS = [
     "customer key only at position 0 of the customer-key block (the only position whose slot is the placeholder); other positions are covered on the container in C08",
     "the raw bytes of unopened blocks are taken from the written file by the independent header parser",
 ]
-REQUIRED_CLASSES = ["third-write-after-in-place-edit=version", "third-write-after-in-place-edit=customer_key", "third-write-after-in-place-edit=selector", "key.ends00", "upd.crc.lo=00", "upd.crc.hi=00", "upd.crc=0000", "cust.crc.lo=00", "cust.crc.hi=00", "blocks>=2", "strict-subset", "ecc",
+REQUIRED_CLASSES = ["wrong-secret-read-before-valid-read", "third-write-after-in-place-edit=version", "third-write-after-in-place-edit=customer_key", "third-write-after-in-place-edit=selector", "key.ends00", "upd.crc.lo=00", "upd.crc.hi=00", "upd.crc=0000", "cust.crc.lo=00", "cust.crc.hi=00", "blocks>=2", "strict-subset", "ecc",
                     "enc-component", "route=path", "ecc.edge-scalar", "decoy-decryptors", "unknown-tag-block", "public-only-encryptor-in-reader-list", "file>32KiB"]
 
 KEY_CLASSES = ["random", "ends00", "upd.lo", "upd.hi", "upd.both", "cust.lo", "cust.hi", "cust.both"]
@@ -134,6 +134,23 @@ def check(case, rec):
         if extra:
             rec.cls("public-only-encryptor-in-reader-list")
             decryptors = extra + decryptors if case["public_only"] == 1 else decryptors + extra
+    # somebody else tries the file first, with decryptors of the right KIND and selector but the wrong secrets (another private key, another
+    # AES key, another code), MAC checking on or off: whatever that read does (it normally fails) must not change the valid read that follows
+    wrong = []
+    for i in case["open"]:
+        b = blocks[i]
+        if b["kind"] == "ecc":
+            wrong.append(sut.B2.EccDecryptor(b["sel"], sut.private_key_from_int((b["priv"] % (S.P256_N - 3)) + 2)))
+        elif b["kind"] == "cust":
+            wrong.append(sut.B2.SoftwareCustKeyEncryptor(bytes(x ^ 0x77 for x in b["crypto_key"])))
+        elif b["kind"] == "upd":
+            wrong.append(sut.B2.ConfigSecurityCodeEncryptor(bytes(x ^ 0x77 for x in b["code"])))
+    if wrong:
+        rec.cls("wrong-secret-read-before-valid-read")
+        try:
+            sut.Bec2File.read_file(src(), wrong, check_cmac=(len(text) % 2 == 0))
+        except Exception:
+            pass
     try:
         g = sut.Bec2File.read_file(src(), decryptors, check_cmac=case.get("check_cmac", True))
     except Exception as e:
